@@ -7,7 +7,7 @@ use crate::model::{MV, json};
 use proptest::prelude::*;
 use serde::{Deserialize, Serialize};
 
-pub const RULE: &str = "programs from a recursion grammar: shape in {self, mutual (2 and 3 functions), via / where / map / filter / reduce callback, the callee handed straight to into / where (no call expression in the cycle), do-block body, anonymous cycle through a record method / a list element / self-application} x per-call expression nesting 1..32 of kind {arithmetic chain, list nesting, record nesting, conditionals, call-argument nesting, mixture} x {unbounded, bounded with depth 100..900 for plain shapes}; enumerated: every shape x nesting {1, 2, 4, 8} x 2 kinds (runaway and 200-300 deep) and nesting {16, 24, 32} x all kinds (runaway; 900 deep for plain shapes); random beyond that. Each is run in the release `blots` binary built from the working tree with RLIMIT_STACK = 8 MiB (the default main-thread stack), RLIMIT_AS 6 GiB and a 60 s timeout. Unbounded programs must exit with status 1 and report `maximum call depth`; a signal or exit 101 is a violation. Bounded programs must exit 0 with the arithmetically expected value. Non-trivial = per-call nesting >= 2 or a callback / mutual / anonymous shape; distinct by program text.";
+pub const RULE: &str = "programs from a recursion grammar: shape in {self, mutual (2 and 3 functions), via / where / map / filter / reduce callback, the callee handed straight to into / where / element-wise via (no call expression in the cycle), do-block body, anonymous cycle through a record method / a list element / self-application} x per-call expression nesting 1..32 of kind {arithmetic chain, list nesting, record nesting, conditionals, call-argument nesting, mixture} x {unbounded, bounded with depth 100..900 for plain shapes}; enumerated: every shape x nesting {1, 2, 4, 8} x 2 kinds (runaway and 200-300 deep) and nesting {16, 24, 32} x all kinds (runaway; 900 deep for plain shapes); random beyond that; single-line shapes are also typed statement by statement into the interactive CLI on a pseudo-terminal (same 8 MiB stack limit). Each is run in the release `blots` binary built from the working tree with RLIMIT_STACK = 8 MiB (the default main-thread stack), RLIMIT_AS 6 GiB and a 60 s timeout. Unbounded programs must exit with status 1 and report `maximum call depth`; a signal or exit 101 is a violation. Bounded programs must exit 0 with the arithmetically expected value. Non-trivial = per-call nesting >= 2 or a callback / mutual / anonymous shape; distinct by program text.";
 pub const ASSUMPTIONS: &[&str] = &[
     "only the real binary decides; a timeout or memory-limit hit is counted as inconclusive, never as a violation",
     "error-swallowing sort_by callbacks are excluded (they turn runaway recursion into exponential work and are not in the statement's list)",
@@ -22,6 +22,9 @@ pub struct Case {
     pub kind: u8,
     /// Some(depth): bounded variant
     pub bounded: Option<u16>,
+    /// typed line by line into the interactive CLI on a pseudo-terminal instead of run as a file
+    #[serde(default)]
+    pub repl: bool,
 }
 
 pub struct Recursion;
@@ -61,6 +64,8 @@ pub fn program(c: &Case) -> (String, Option<f64>) {
             // the callee handed straight to the operator: no call expression anywhere in the cycle
             12 => format!("(({}) into {})", if c.bounded.is_some() { "n - 1" } else { "n + 1" }, callee),
             13 if c.bounded.is_none() => format!("len([n + 1] where {})", callee),
+            // element-wise via: a list of values against a list of functions
+            14 => format!("([{}] via [{}])[0]", if c.bounded.is_some() { "n - 1" } else { "n + 1" }, callee),
             13 => format!("len([n - 1] where (x => {}(x) .== 0 or true))", callee),
             _ => step(callee),
         }
@@ -140,7 +145,7 @@ impl Check for Recursion {
     }
     fn run(&self, c: &Case, ctx: &mut Ctx) -> Outcome {
         let (src, expected) = program(c);
-        let shape = ["self", "mutual2", "mutual3", "via", "where", "map", "filter", "reduce", "do-block", "record-method", "list-element", "self-application", "into", "where-direct"][c.shape as usize % 14];
+        let shape = ["self", "mutual2", "mutual3", "via", "where", "map", "filter", "reduce", "do-block", "record-method", "list-element", "self-application", "into", "where-direct", "zip-via"][c.shape as usize % 15];
         let bucket = match c.nesting {
             0..=1 => "nesting1",
             2..=4 => "nesting2-4",
@@ -152,6 +157,9 @@ impl Check for Recursion {
         ctx.label(if c.bounded.is_some() { "bounded" } else { "unbounded" });
         if c.nesting >= 2 || c.shape != 0 {
             ctx.nontrivial(hash_str(&src));
+        }
+        if c.repl {
+            return self.repl(c, &src, shape, bucket, ctx);
         }
         let dir = crate::engine::proc::scratch_dir("c18");
         let p = format!("{}/r.blots", dir);
@@ -195,12 +203,44 @@ impl Check for Recursion {
     }
 }
 
+impl Recursion {
+    /// the interactive mode of the CLI: one statement per line on a pseudo-terminal
+    fn repl(&self, c: &Case, src: &str, shape: &str, bucket: &str, ctx: &mut Ctx) -> Outcome {
+        ctx.label("interactive-repl");
+        let lines: Vec<String> = src.lines().map(|l| l.strip_prefix("output ").unwrap_or(l).to_string()).collect();
+        let lim = Limits { mem_bytes: 6 << 30, stack_bytes: 8 << 20, timeout: std::time::Duration::from_secs(40) };
+        let r = match crate::engine::proc::run_pty(&ctx.cli_path, &lines, &lim) {
+            Ok(r) => r,
+            Err(e) => fail!("spawn-pty", "{}", e),
+        };
+        if r.timed_out {
+            ctx.note(format!("timeout (inconclusive): repl {} {}", shape, bucket));
+            ctx.label("resource-inconclusive");
+            return Ok(());
+        }
+        let kind = if c.bounded.is_some() { "bounded" } else { "unbounded" };
+        let tail: String = r.stdout.chars().rev().take(400).collect::<String>().chars().rev().collect();
+        if let Some(sig) = r.signal {
+            fail!(format!("repl:{}:{}:{}:signal{}", kind, shape, bucket, sig), "the interactive CLI was killed by signal {} while evaluating\n{}--- end of its output: {:?}", sig, src, tail);
+        }
+        if r.code != Some(0) {
+            fail!(format!("repl:{}:{}:{}:exit{}", kind, shape, bucket, r.code.unwrap_or(-1)), "the interactive CLI exited with {} on\n{}--- end of its output: {:?}", r.describe(), src, tail);
+        }
+        let depth_error = r.stdout.contains("maximum call depth");
+        match c.bounded {
+            None if !depth_error => fail!(format!("repl:unbounded:{}:{}:no-depth-error", shape, bucket), "no 'maximum call depth' error in the session\n{}--- output: {:?}", src, tail),
+            Some(_) if depth_error => fail!(format!("repl:bounded:{}:{}:depth-error", shape, bucket), "recursion {} deep reported the call-depth error\n{}--- output: {:?}", c.bounded.unwrap(), src, tail),
+            _ => Ok(()),
+        }
+    }
+}
+
 pub fn strategy() -> BoxedStrategy<Case> {
-    (0u8..14, prop_oneof![3 => 1u8..5, 2 => 5u8..13, 1 => 13u8..33], 0u8..6, prop::option::weighted(0.35, 100u16..900))
+    (0u8..15, prop_oneof![3 => 1u8..5, 2 => 5u8..13, 1 => 13u8..33], 0u8..6, prop::option::weighted(0.35, 100u16..900))
         .prop_map(|(shape, nesting, kind, bounded)| {
             // bounded variants: plain shapes only (callback shapes consume several call levels per step)
             let bounded = if matches!(shape, 0 | 1 | 2 | 8 | 9 | 10 | 11 | 12) { bounded } else { bounded.map(|d| d.min(250)) };
-            Case { shape, nesting, kind, bounded }
+            Case { shape, nesting, kind, bounded, repl: false }
         })
         .boxed()
 }
@@ -208,21 +248,30 @@ pub fn strategy() -> BoxedStrategy<Case> {
 pub fn run(ctx: &mut Ctx) {
     // every shape x a few nestings, unbounded and bounded(300)
     let mut fixed = Vec::new();
-    for shape in 0..14u8 {
+    for shape in 0..15u8 {
         for nesting in [1u8, 2, 4, 8] {
             for kind in [0u8, 4] {
-                fixed.push(Case { shape, nesting, kind, bounded: None });
-                fixed.push(Case { shape, nesting, kind, bounded: Some(if matches!(shape, 3..=7 | 13) { 200 } else { 300 }) });
+                fixed.push(Case { shape, nesting, kind, bounded: None, repl: false });
+                fixed.push(Case { shape, nesting, kind, bounded: Some(if matches!(shape, 3..=7 | 13 | 14) { 200 } else { 300 }), repl: false });
             }
         }
         // deep per-call nesting of every kind, runaway and just below the limit
         for nesting in [16u8, 24, 32] {
             for kind in 0u8..6 {
-                fixed.push(Case { shape, nesting, kind, bounded: None });
+                fixed.push(Case { shape, nesting, kind, bounded: None, repl: false });
             }
             if matches!(shape, 0 | 1 | 2 | 8 | 9 | 10 | 11 | 12) {
-                fixed.push(Case { shape, nesting, kind: 0, bounded: Some(900) });
-                fixed.push(Case { shape, nesting, kind: 5, bounded: Some(900) });
+                fixed.push(Case { shape, nesting, kind: 0, bounded: Some(900), repl: false });
+                fixed.push(Case { shape, nesting, kind: 5, bounded: Some(900), repl: false });
+            }
+        }
+    }
+    // the interactive mode (statements typed on a pseudo-terminal): single-line shapes
+    for shape in [0u8, 1, 3, 5, 9, 12, 14] {
+        for (nesting, kind) in [(1u8, 0u8), (4, 0), (12, 0), (12, 5), (24, 0)] {
+            fixed.push(Case { shape, nesting, kind, bounded: None, repl: true });
+            if matches!(shape, 0 | 1 | 9 | 12) {
+                fixed.push(Case { shape, nesting, kind, bounded: Some(300), repl: true });
             }
         }
     }
